@@ -20,7 +20,7 @@ namespace occa {
 
     void dontUseRefs();
     void addStreamRef(stream *s);
-    void removeStreamRef(stream *s);
+    bool removeStreamRef(stream *s);
     bool needsFree() const;
 
     //---[ Virtual Methods ]------------
